@@ -85,6 +85,7 @@ fn dispatch(w: &[&str]) -> String {
         "tdecm" => c02op::run_tdecm(&w[1..]),
         "dropcount" => c02op::run_dropcount(&w[1..]),
         "tenc" => typed::run_enc(&w[1..]),
+        "tencpath" => typed::run_encpath(&w[1..]),
         "tdec" => typed::run_dec(&w[1..]),
         "tokenc" => tokop::run_enc(&w[1..]),
         "tokdec" => tokop::run_dec(&w[1..]),
